@@ -725,6 +725,8 @@ def run_op(ctx, case_index, name, opfn, retryable, layer):
         ctx.inconclusive('%s: the unfaulted call returns %r' % (name, rc_n))
         return
     resume_at = ctx.resume['at'] if ctx.resume and ctx.resume.get('index') == case_index else 0
+    if case_index % 17 == 0:
+        ctx.sample(dict(op=name, layer=layer, allocations_in_unfaulted_call=n, injections=len(ks_for(n, quick))), 2)
     for k in ks_for(n, quick):
         if k <= resume_at:
             continue
